@@ -191,11 +191,11 @@ def u_resample(n=2, pattern=(0,), dim=2, mode='count', count=3, closed='open'):
             return None
         c = r.f[0]
         if mode == 'count':
-            md = En('ByCount', [count])
+            md = En('ByCount', [count], 'Resample')
         elif mode == 'spacing':
-            md = En('BySpacing', [s])
+            md = En('BySpacing', [s], 'Resample')
         else:
-            md = En('ByMaxSpacing', [s])
+            md = En('ByMaxSpacing', [s], 'Resample')
         res = eng.call(f'{ty}::resample', [Ref.to(c), md])
         return {'curve': c, 'res': res}
 
